@@ -44,7 +44,7 @@ var props = []*PropDef{
 		ID: "C06",
 		Funcs: []string{"utils.RuneToInt", "utils.IntToRune", "utils.New1DCodeIntCheckSumWithColor",
 			"utils.(*base1DCode).Content", "utils.(*base1DCode).Metadata", "utils.(*base1DCode).Bounds", "utils.(*base1DCode).At", "utils.(*base1DCodeIntCS).CheckSum"},
-		Unwind: []UnwindDef{{Name: "ean", Run: unwindEAN}},
+		Unwind: []*Unwinder{unwEAN},
 		Tables: []string{"ean/tables"},
 		Harness: []Harness{
 			{Pkg: "ean", File: "c06_ean_test.go", Run: "TestVerifC06", Bound: "replay search / cross-check with the independent reference decoder onedspec.EANDecode on random and boundary inputs (the proof itself is complete: all strings of length 7, 8, 12, 13 symbolically, every other length rejected)"},
